@@ -168,6 +168,17 @@ func vc20directed() []string {
 	// the extremes, approached from several terms
 	add("2562047h47m16.854775807s", "2562047h47m16.854775808s", "-2562047h47m16.854775808s", "-2562047h47m16.854775809s", "2562047h47m16s854775807ns", "2562047h47m16s854775808ns", "9223372036s854775807ns", "9223372036s854775808ns", "153722867m16.854775807s", "153722867m16.854775808s",
 		"106751d23h47m16.854775807s", "106751d23h47m16.854775808s", "-106751d23h47m16.854775808s", "-106751d23h47m16.854775809s", "106752d", "106751.991167300d", "9223372036854775807ns9223372036854775807ns", "4611686018427387904ns4611686018427387904ns", "4611686018427387904ns4611686018427387903ns")
+	// totals that reach 1<<63 and then 1<<64 exactly (the standard parser's running total wraps there), in several splits
+	for _, sign := range []string{"", "-", "+"} {
+		for _, tail := range []string{"", "1s", "0s", "1ns", "9223372036854775808ns"} {
+			add(sign+"9223372036854775808ns9223372036854775808ns"+tail, sign+"9223372036854775807ns1ns9223372036854775808ns"+tail, sign+"4611686018427387904ns4611686018427387904ns9223372036854775808ns"+tail,
+				sign+"9223372036854775808ns9223372036854775807ns"+tail, sign+"9223372036854775808ns9223372036854775809ns"+tail, sign+"9223372036.854775808s9223372036854775808ns"+tail, sign+"2562047h47m16.854775808s9223372036854775808ns"+tail)
+		}
+	}
+	// invisible characters in front of, inside and behind a valid text: a byte order mark, zero-width and other spaces
+	for _, inv := range []string{"\xef\xbb\xbf", "\ufeff\ufeff", "\u200b", "\u00a0", "\u2060", "\u200e", " ", "\t", "\n", "\r\n", "\x00", "\ufffe", "\xfe\xff", "\xff\xfe"} {
+		add(inv+"1h", inv+"10s", inv+"-1s", "-"+inv+"1s", "1h"+inv, "1h"+inv+"30m", "1"+inv+"h", inv, inv+"0", inv+"1.5h30m", inv+"1d")
+	}
 	// cut-off and odd encodings anywhere
 	for _, frag := range []string{"\xef\xbf", "\xef", "\xef\xbf\xbd", "\xc2", "\xce", "\xf0\x9f\x98", "\xff", "\x80", "\xc0\xaf", "\xed\xa0\x80"} {
 		add("5"+frag, frag, "1h"+frag+"30m", frag+"5s", "5s"+frag, "5"+frag+"s", "1.5"+frag)
